@@ -5,6 +5,7 @@ import (
 
 	"github.com/brewlin/net-protocol/pkg/buffer"
 	"github.com/brewlin/net-protocol/pkg/seqnum"
+	"github.com/brewlin/net-protocol/protocol/header"
 )
 
 // ---------- C04: windows and MSS ----------
@@ -149,5 +150,37 @@ func vh_zero_window() {
 		vreach("reopened")
 	} else {
 		vreach("still-closed")
+	}
+}
+
+// O3 (handshake part): the window of a SYN segment is never scaled; the window of the final
+// ACK is scaled by the negotiated shift.
+func vh_handshake_wnd() {
+	vclockFreeze()
+	c := vhEP(1<<16, 1<<16)
+	e := c.e
+	e.state = stateConnecting
+	h, _ := newHandshake(e, seqnum.Size(e.rcvBufSize))
+	passive := vnBool("passive")
+	if passive {
+		opts := header.TCPSynOptions{MSS: 1460, WS: vnChoice("peerws", 16) - 1}
+		h.resetToSynRcvd(seqnum.Value(vnU32("iss")), seqnum.Value(vnU32("irs")), &opts)
+	} else {
+		h.sndWndScale = vnChoice("peerws", 16) - 1 // scale learnt from an earlier crossing SYN
+	}
+	ws := h.sndWndScale
+	s := newSegmentFromView(&e.route, e.id, buffer.View{})
+	s.sequenceNumber = seqnum.Value(vnU32("seq"))
+	s.ackNumber = seqnum.Value(vnU32("ack"))
+	s.flags = vnU8("flags")
+	w := vnU16("wnd")
+	s.window = seqnum.Size(w)
+	h.handleSegment(s)
+	if s.flags&flagSyn != 0 || ws <= 0 {
+		vassert(h.sndWnd == seqnum.Size(w), "the window field of a SYN (or without negotiated scaling) is used unscaled")
+		vreach("unscaled")
+	} else {
+		vassert(h.sndWnd == seqnum.Size(w)<<uint(ws), "the window of a non-SYN handshake segment is scaled by the negotiated shift")
+		vreach("scaled")
 	}
 }
